@@ -48,6 +48,22 @@ func Transcribe(seq Sequence) Sequence {
 	return WithBytes(seq, p)
 }
 
+// toLowerASCII returns a copy of p in which the upper case letters A to Z are
+// replaced by their lower case. Every other byte is kept as it is, so the
+// copy has the length of p and a position in it is a position in p
+// (bytes.ToLower decodes UTF-8 and replaces every byte that is not part of a
+// valid encoding by the three bytes of U+FFFD).
+func toLowerASCII(p []byte) []byte {
+	q := make([]byte, len(p))
+	for i, c := range p {
+		if 'A' <= c && c <= 'Z' {
+			c += 'a' - 'A'
+		}
+		q[i] = c
+	}
+	return q
+}
+
 // Match for an oligomer within a sequence. The ambiguous nucleotides in the
 // query sequence will match any of the respective nucleotides.
 func Match(seq Sequence, query Sequence) []Segment {
@@ -56,7 +72,7 @@ func Match(seq Sequence, query Sequence) []Segment {
 	}
 
 	b := strings.Builder{}
-	for _, c := range bytes.ToLower(query.Bytes()) {
+	for _, c := range toLowerASCII(query.Bytes()) {
 		switch c {
 		case 't', 'u':
 			b.WriteString("[tu]")
@@ -88,7 +104,7 @@ func Match(seq Sequence, query Sequence) []Segment {
 	}
 
 	s := b.String()
-	p := bytes.ToLower(seq.Bytes())
+	p := toLowerASCII(seq.Bytes())
 
 	re := regexp.MustCompile(s)
 	pairs := re.FindAllIndex(p, -1)
